@@ -78,6 +78,20 @@ type Params struct {
 	// commitment, so the header hash is nil; Ethereum family: zero hashes, zero difficulty / time /
 	// gas, zero vanity and seal bytes). Routers whose builder has no such variant ignore it.
 	Minimal bool
+	// ChainTag selects the chain-id STRING carried inside the header of the tendermint-family routers
+	// (cosmos, okex, heimdall): 0 = the default id, -1 = the empty string, n = "other-chain-n".
+	// Routers whose genesis has no such field ignore it.
+	ChainTag int
+}
+
+func tmChainID(p Params, def string) string {
+	switch {
+	case p.ChainTag == 0:
+		return def
+	case p.ChainTag < 0:
+		return ""
+	}
+	return fmt.Sprintf("other-chain-%d", p.ChainTag)
 }
 
 type Router struct {
@@ -94,6 +108,8 @@ type Router struct {
 	// Probe (optional) builds follow-up headers that reach the router's header verification after
 	// Build(p) was installed but are not expected to be accepted (workloads only; C19 does not use it).
 	Probe func(p Params, rng *rand.Rand) ([][]byte, error)
+	// HasChainTag: the genesis document carries a chain-id string (Params.ChainTag is honoured).
+	HasChainTag bool
 }
 
 func rb(rng *rand.Rand, n int) []byte {
@@ -267,21 +283,21 @@ func buildHeimdall(p Params) ([]byte, error) {
 		vals = append(vals, ptypes.NewValidator(psecp.GenPrivKeySecp256k1(rb(v, 32)).PubKey(), 1+v.Int63n(100000)))
 	}
 	nextHash := rb(v, 32) // commits to the validator set that signs from Height+1 on
-	h := ptypes.Header{ChainID: "heimdall-137", Height: int64(p.Height), Time: tmTime(s), NumTxs: int64(s.Intn(50)), TotalTxs: s.Int63n(1 << 30),
+	h := ptypes.Header{ChainID: tmChainID(p, "heimdall-137"), Height: int64(p.Height), Time: tmTime(s), NumTxs: int64(s.Intn(50)), TotalTxs: s.Int63n(1 << 30),
 		LastCommitHash: rb(s, 32), DataHash: rb(s, 32), ValidatorsHash: rb(s, 32), NextValidatorsHash: nextHash, ConsensusHash: rb(s, 32),
 		AppHash: rb(s, 32), LastResultsHash: rb(s, 32), EvidenceHash: rb(s, 32), ProposerAddress: vals[0].Address}
 	h.Version.Block = 10
 	if p.Minimal {
-		h = ptypes.Header{ChainID: "heimdall-137", Height: int64(p.Height), NextValidatorsHash: nextHash}
+		h = ptypes.Header{ChainID: tmChainID(p, "heimdall-137"), Height: int64(p.Height), NextValidatorsHash: nextHash}
 	}
 	return ptypes.NewCDC().MarshalBinaryBare(polygon.CosmosHeader{Header: h, Valsets: vals})
 }
 
 func tmHeader(p Params, s *rand.Rand, valsHash, proposer []byte) tmtypes.Header {
 	if p.Minimal {
-		return tmtypes.Header{ChainID: "c19-chain", Height: int64(p.Height), NextValidatorsHash: valsHash}
+		return tmtypes.Header{ChainID: tmChainID(p, "c19-chain"), Height: int64(p.Height), NextValidatorsHash: valsHash}
 	}
-	return tmtypes.Header{Version: tmversion.Consensus{Block: 10, App: tmversion.Protocol(s.Intn(3))}, ChainID: "c19-chain", Height: int64(p.Height), Time: tmTime(s),
+	return tmtypes.Header{Version: tmversion.Consensus{Block: 10, App: tmversion.Protocol(s.Intn(3))}, ChainID: tmChainID(p, "c19-chain"), Height: int64(p.Height), Time: tmTime(s),
 		LastBlockID:    tmtypes.BlockID{Hash: rb(s, 32), PartsHeader: tmtypes.PartSetHeader{Total: 1, Hash: rb(s, 32)}},
 		LastCommitHash: rb(s, 32), DataHash: rb(s, 32), ValidatorsHash: rb(s, 32), NextValidatorsHash: valsHash, ConsensusHash: rb(s, 32),
 		AppHash: rb(s, 32), LastResultsHash: rb(s, 32), EvidenceHash: rb(s, 32), ProposerAddress: proposer}
@@ -625,9 +641,9 @@ func Routers() []Router {
 		{Name: "bytom", ID: utils.BYTOM_ROUTER, Extra: chainID(188), MinH: 200, HStep: 200, SpanH: 100000, Build: buildBytom},
 		{Name: "msc", ID: utils.MSC_ROUTER, Extra: mustJSON(map[string]interface{}{"ChainID": 1001, "Period": 3, "Epoch": mscEpoch}), MinH: 0, HStep: mscEpoch, SpanH: 100000, Build: buildMSC},
 		{Name: "bor", ID: utils.POLYGON_BOR_ROUTER, Extra: mustJSON(polygon.ExtraInfo{Sprint: 64, Period: 2, ProducerDelay: 6, BackupMultiplier: 2, HeimdallPolyChainID: 99}), MinH: 0, HStep: 64, SpanH: 400000, Build: buildBor, Probe: probeBor},
-		{Name: "heimdall", ID: utils.POLYGON_HEIMDALL_ROUTER, MinH: 1, HStep: 1, SpanH: 9000000, Build: buildHeimdall},
-		{Name: "cosmos", ID: utils.COSMOS_ROUTER, MinH: 1, HStep: 1, SpanH: 9000000, Build: buildCosmos, Sync: syncCosmos},
-		{Name: "okex", ID: utils.OKEX_ROUTER, MinH: 1, HStep: 1, SpanH: 9000000, Build: buildOkex},
+		{Name: "heimdall", ID: utils.POLYGON_HEIMDALL_ROUTER, MinH: 1, HStep: 1, SpanH: 9000000, Build: buildHeimdall, HasChainTag: true},
+		{Name: "cosmos", ID: utils.COSMOS_ROUTER, MinH: 1, HStep: 1, SpanH: 9000000, Build: buildCosmos, Sync: syncCosmos, HasChainTag: true},
+		{Name: "okex", ID: utils.OKEX_ROUTER, MinH: 1, HStep: 1, SpanH: 9000000, Build: buildOkex, HasChainTag: true},
 		{Name: "ont", ID: utils.ONT_ROUTER, MinH: 0, HStep: 1, SpanH: 12000000, Build: buildONT, Sync: syncONT},
 		{Name: "neo", ID: utils.NEO_ROUTER, MinH: 0, HStep: 1, SpanH: 8000000, Build: buildNEO},
 		{Name: "neo3", ID: utils.NEO3_ROUTER, MinH: 0, HStep: 1, SpanH: 3000000, Build: buildNEO3},
